@@ -172,6 +172,12 @@ func (p *Provider) SetPairedUser(v bool) {
 	p.mu.Unlock()
 }
 
+func (p *Provider) SetAllowWait(v bool) {
+	p.mu.Lock()
+	p.allowWait = v
+	p.mu.Unlock()
+}
+
 func (p *Provider) SetAuto(v bool) {
 	p.mu.Lock()
 	p.auto = v
